@@ -1260,19 +1260,55 @@ def gen_source_for(rng, merged):
     return src
 
 
+def real_bases(body):
+    """the base specs MPF itself validates a section of this type with (device.py: "device",
+    config_player.py: "config_player_common")"""
+    t = body.get("__type__")
+    if t == "device":
+        return ["device"]
+    if t == "config_player":
+        return ["config_player_common"]
+    return []
+
+
 def gen_section(rng, tier, i):
-    if rng.random() < 0.45:
+    if i % 2 == 0:
+        # every section of config_spec.yaml in turn (whole-spec coverage does not depend on the seed)
         rs = real_spec()
-        sec = rng.choice(rs["sections"])
+        sec = rs["sections"][(i // 2) % len(rs["sections"])]
         body = rs["spec"][sec]
-        base = ["device"] if body.get("__type__") == "device" else []
+        base = real_bases(body)
+        r = rng.random()
+        if r < 0.06:
+            base = []
+        elif r < 0.12:
+            base = rng.choice([["device"], ["config_player_common"], ["device", "config_player_common"],
+                               ["config_player_common", "device"]])
         merged = merged_spec_py([enc_spec(body)] + [enc_spec(rs["spec"][b]) for b in base])
         return {"real": sec, "base": base, "source": tagv(gen_source_for(rng, merged)),
                 "add_missing": rng.random() < 0.9, "allow_invalid": rng.random() < 0.05}
-    specs = [gen_synth_spec(rng) for _ in range(rng.choice([1, 1, 1, 2, 2, 3]))]
+    specs = [gen_synth_spec(rng) for _ in range(rng.choice([1, 1, 2, 2, 2, 3]))]
     merged = merged_spec_py(specs)
     return {"specs": specs, "source": tagv(gen_source_for(rng, merged)),
             "add_missing": rng.random() < 0.85, "allow_invalid": rng.random() < 0.08}
+
+
+def perkey_outcomes(cv, merged, source_t, add_missing):
+    """The property's reading of a section validation, computed WITHOUT build_spec: every key is validated against
+    the entry the section itself declares (base specs only contribute keys the section does not declare).
+    merged: independent merge (merged_spec_py) of the specs as they were BEFORE the call."""
+    from mpf.core.config_validator import ValidationPath
+    vfi = ValidationPath(ValidationPath(None, "sec"), "key")
+    src = untag(source_t) if source_t[0] == "d" else {}
+    res = {}
+    for k, e in merged.items():
+        if e[0] != "item" or k.startswith("_") or k == "":
+            continue
+        if k in src:
+            res[k] = _outcome(cv.validate_config_item, list(e[1:]), vfi, src[k])
+        elif add_missing:
+            res[k] = _outcome(cv.validate_config_item, list(e[1:]), vfi)
+    return res
 
 
 def run_section(case):
@@ -1289,29 +1325,35 @@ def run_section(case):
         store = {n: dec_spec(s) for n, s in zip(names, case["specs"])}
         cv = ConfigValidator(machine, store)
         base_arg = None if len(names) == 1 else names[1] if len(names) == 2 else tuple(names[1:])
-        spec_seen = None
+        spec_seen = [enc_spec(store[n]) for n in names]
     before = spec_fingerprint(cv.config_spec)
     source = untag(case["source"])
-    keys_before = list(source.keys()) if isinstance(source, dict) else None
     old = machine.config["mpf"]["allow_invalid_config_sections"]
     machine.config["mpf"]["allow_invalid_config_sections"] = bool(case["allow_invalid"])
     try:
         out = _outcome(lambda: cv.validate_config(names[0], source, "name", base_arg, case["add_missing"]))
+        # a second validation of the same source through the (now cached) merged spec
+        out["again"] = _outcome(lambda: cv.validate_config(names[0], untag(case["source"]), "name", base_arg,
+                                                           case["add_missing"]))
     finally:
         machine.config["mpf"]["allow_invalid_config_sections"] = old
     out["spec_changed"] = spec_fingerprint(cv.config_spec) != before
-    # the cached merged spec must still equal a fresh merge
+    # the merged spec the section has to be validated against, computed independently of build_spec from the specs as
+    # they were before the call; what build_spec hands out (cached) is reported next to it
+    expected = merged_spec_py(spec_seen)
+    out["merged"] = [[k, e] for k, e in expected.items()]
     try:
-        cached = cv.build_spec(names[0], base_arg)
-        fresh = ConfigValidator.build_spec.__wrapped__(cv, names[0], base_arg)
-        out["cache_stale"] = spec_fingerprint(cached) != spec_fingerprint(fresh)
-        out["merged"] = enc_spec(fresh)
+        out["built"] = enc_spec(cv.build_spec(names[0], base_arg))
     except Exception as e:    # noqa
-        out["merged"] = None
-    if spec_seen is not None:
+        out["built"] = None
+    out["perkey"] = perkey_outcomes(cv, expected, case["source"], case["add_missing"])
+    if "real" in case:
         out["spec_seen"] = spec_seen
-    if "real" in case and out["spec_changed"] is False:
-        out["spec_changed"] = spec_fingerprint(cv.config_spec) != _RIG["spec0"]
+        if out["spec_changed"] is False:
+            out["spec_changed"] = spec_fingerprint(cv.config_spec) != _RIG["spec0"]
+    else:
+        out["spec_changed"] = out["spec_changed"] or spec_fingerprint(cv.config_spec) != \
+            spec_fingerprint({n: dec_spec(s) for n, s in zip(names, case["specs"])})
     return out
 
 
@@ -1330,6 +1372,8 @@ def cspec(enc):
 def coq_section(case, out):
     try:
         specs = out.get("spec_seen") if "real" in case else case["specs"]
+        if "again" in out and (("ok" in out["again"]) != ("ok" in out)):
+            pass      # reported by the oracle (cached-spec-differs); the model is compared with the first outcome
         if specs is None:
             return None
         merged = merged_spec_py(specs)
@@ -1359,20 +1403,58 @@ def coq_section(case, out):
         return None
 
 
+def section_keys_plain(case, mk):
+    """source is a dict whose keys are all strings that the merged spec knows as item/ignore entries (or that are
+    private / tolerated): then the only things that can reject the config are the per-key validations"""
+    src = case["source"]
+    if src[0] == "n":
+        return True
+    if src[0] != "d":
+        return False
+    if any(e[0] == "raw" and not k.startswith("_") for k, e in mk.items()):
+        return False
+    for kt, _ in src[1]:
+        if kt[0] != "s" or kt[1] == "":
+            return False
+        e = mk.get(kt[1])
+        if e is None:
+            if not (kt[1].startswith("_") or case["allow_invalid"] or "__allow_others__" in mk):
+                return False
+        elif e[0] not in ("item", "ignore") and not kt[1].startswith("_"):
+            return False
+    return True
+
+
 def oracle_section(case, out):
     fails = []
     if out.get("spec_changed"):
         fails.append({"sig": "spec-modified", "what": "config_spec differs after validate_config"})
-    if out.get("cache_stale"):
-        fails.append({"sig": "spec-modified", "what": "the cached merged spec differs from a fresh merge"})
     merged = out.get("merged")
-    if "ok" not in out or merged is None:
+    if merged is None:
+        return fails
+    mk = {k: e for k, e in merged}
+    again = out.get("again")
+    if again is not None and ("ok" in again) != ("ok" in out) or \
+            (again is not None and "ok" in again and json.dumps(again["ok"], sort_keys=True) != json.dumps(out["ok"], sort_keys=True)):
+        fails.append({"sig": "cached-spec-differs",
+                      "what": "validating the same source a second time (through the cached merged spec) gives %r, the "
+                              "first time %r" % (again, {k: out[k] for k in ("ok", "err") if k in out})})
+    perkey = out.get("perkey") or {}
+    plain = section_keys_plain(case, mk)
+    if "ok" not in out:
+        # rejected: legitimate whenever some key is invalid for ITS OWN declaration; if every key validates against the
+        # entry the section declares, the config was validated against something else than the declared spec
+        if plain and perkey is not None and all("ok" in o for o in perkey.values()) and \
+                not any(k == "" for k in mk):
+            fails.append({"sig": "declared-spec-not-applied",
+                          "what": "validate_config rejects (%s) a source in which every key is valid for the entry the "
+                                  "section declares (independent merge of %r): %r" %
+                                  (out.get("err"), case.get("real", "synthetic"), perkey)})
         return fails
     res = out["ok"]
     if res[0] != "d":
         fails.append({"sig": "section-not-dict", "what": "validate_config returned a %s" % res[0]})
         return fails
-    mk = {k: e for k, e in merged}
     rd = {}
     for kt, vt in res[1]:
         rd[json.dumps(kt)] = vt
@@ -1397,6 +1479,15 @@ def oracle_section(case, out):
             if case["add_missing"]:
                 fails.append({"sig": "spec-key-missing", "what": "spec key %r missing from the validated config" % k})
             continue
+        if e[0] == "item" and k in perkey:
+            pk = perkey[k]
+            if "ok" not in pk or json.dumps(pk["ok"], sort_keys=True) != json.dumps(vt, sort_keys=True):
+                fails.append({"sig": "declared-spec-not-applied",
+                              "what": "key %r is declared %s (own declaration first, base specs fill in) and %s; validated "
+                                      "on its own against that entry: %r, but validate_config returned %r" %
+                                      (k, "|".join(e[1:]), "given as %r" % (src_vals[k],) if k in src_vals else "absent",
+                                       pk, vt)})
+                continue
         if e[0] == "item" and py_has_item_type(e[1], e[2], vt) is False and \
                 pow2_defect_only(e[1], e[2], src_vals.get(k), e[3], vt):
             fails.append({"sig": "pow2-returns-unconverted",
@@ -1425,8 +1516,29 @@ def nontrivial_section(case, out):
     return case["source"][0] == "d" and len(case["source"][1]) > 0
 
 
+_COVERAGE = {"sections": set(), "types": {}}
+
+
 def describe_section(case):
-    return ("real" if "real" in case else "synthetic") + (" base" if case.get("base") or len(case.get("specs", [])) > 1 else "")
+    """histogram label; also accumulates which sections of config_spec.yaml were validated in this run and
+    appends the coverage to RULE (evidence)"""
+    global RULE
+    if "real" in case:
+        try:
+            rs = real_spec()
+            if case["real"] not in _COVERAGE["sections"]:
+                _COVERAGE["sections"].add(case["real"])
+                t = str(rs["spec"][case["real"]].get("__type__", "-"))
+                _COVERAGE["types"][t] = _COVERAGE["types"].get(t, 0) + 1
+            RULE = RULE_BASE + "  SECTION COVERAGE this run: %d of %d sections of config_spec.yaml validated (by __type__: %s)%s" % (
+                len(_COVERAGE["sections"]), len(rs["sections"]),
+                ", ".join("%s %d" % kv for kv in sorted(_COVERAGE["types"].items())),
+                "" if len(_COVERAGE["sections"]) == len(rs["sections"]) else
+                "; not reached: " + ", ".join(sorted(set(rs["sections"]) - _COVERAGE["sections"]))[:400])
+        except Exception:     # noqa  (coverage reporting must never break a run)
+            pass
+        return "real %s%s" % (case.get("_type", ""), "base=" + "+".join(case["base"]) if case.get("base") else "no base")
+    return "synthetic" + (" %d specs" % len(case.get("specs", [])))
 
 
 HDR_SECTION = ("From Coq Require Import QArith.\nFrom C12 Require Import Base Model.\nOpen Scope Z_scope.\n"
@@ -1459,7 +1571,7 @@ def widened_search(seed):
     return None
 
 
-RULE = ("time: strings <decimal><suffix> (65% d.ddd, plus integers, long fractions, exponents, underscores, whitespace, "
+RULE_BASE = ("time: strings <decimal><suffix> (65% d.ddd, plus integers, long fractions, exponents, underscores, whitespace, "
         "inf/nan, junk) x suffix ms/msec/s/sec/m/h/d in random letter case, and non-string inputs; non-trivial = digits "
         "and a letter suffix.  item: 30% entries drawn from the real config_spec.yaml (all sections), 70% synthetic "
         "type|validator|default over every modelled validator (with ranges, enums, device sections, _or_token, malformed "
@@ -1468,6 +1580,7 @@ RULE = ("time: strings <decimal><suffix> (65% d.ddd, plus integers, long fractio
         "required).  section: 45% real sections (with base spec 'device' where declared), 55% synthetic specs with 1-3 base "
         "specs; mostly-valid source with one perturbation (unknown key incl. _private / empty / non-string keys, wrong "
         "type, deleted key, non-dict source); non-trivial = non-empty dict source; distinct by case hash")
+RULE = RULE_BASE
 TRUSTED_BASE = [
     "Coq 8.16.1 kernel (coqc), vm_compute for witnesses and for evaluating the model in the correspondence run; no native_compute",
     "axioms: none (every Print Assumptions is 'Closed under the global context'); stdlib QArith/Qround/Qabs/Lqa (lra, nra), Lia",
